@@ -259,6 +259,7 @@ def plan(tier):
     for a in range(len(ALPHA)):
         units.append(('crlf-chars', a))
     units.append(('crlf-tokens',))
+    units.append(('late-invalid',))
     for kind in ('buffered-16', 'buffered-64', 'file'):
         units.append(('tokens-stream', kind))
     for lo in range(0, 256, 32):
@@ -454,6 +455,22 @@ def _run_unit(unit, tier, acc):
             for vec in itertools.product(*doms):
                 one(b'#.change:' + build_tokens(list(vec), 1), crlf, **kw)
         acc.sample({'crlf_header_context': True}, 1)
+    elif unit[0] == 'late-invalid':
+        # one invalid (or unusual) token at EVERY position of a header with
+        # 1..9 options: validation does not stop after the first few
+        bad = [b'g=x+y', b'5d=e', b'd.e=f', b'g=x=y', b'g=x:y', b'g=\xff',
+               b'\xffg=1', b'g', b'g=', b'=1', b'g==1', b'g =1', b'g= 1',
+               b'-g=1', b'g=a b', b'G_1-x=Az09/._-', b'g=-0', b'g=007']
+        for n in range(1, 10):
+            good = [b'k%d=v%d' % (i, i) for i in range(n)]
+            for pos in range(n + 1):
+                for tok in bad:
+                    opts = good[:pos] + [tok] + good[pos:]
+                    one(b'#.change: ' + b', '.join(opts))
+                    if pos == n:
+                        one(b'#.change: ' + b', '.join(opts[:-1]) + b',' +
+                            tok)
+        acc.sample({'late_invalid_tokens': 'positions 0..9'}, 1)
     elif unit[0] == 'tokens-stream':
         # the one-pair token product again, read through a buffered stream
         # / a real file (the grammar does not depend on the kind of stream)
